@@ -976,6 +976,10 @@ static void unique_add_to_mapping (mapping_t * m1, mapping_t * m2, int free_flag
 }
 
 void absorb_mapping (mapping_t * m1, mapping_t * m2) {
+  /* m += m: every key is already there; assign_svalue() of a value onto itself
+   * would free it first and then copy the freed value */
+  if (m1 == m2)
+    return;
   if (m2->count)
     add_to_mapping (m1, m2, 0);
 }
